@@ -88,6 +88,18 @@ func init() {
 		Outside:     []string{"process exit status and stderr of uncaught throwables / parse errors (decided per OS process: no symbolic dimension)", "nesting depth > 2", "hierarchies beyond the 4-class fixture"},
 	})
 
+	reg(Check{
+		ID:  "C06",
+		Pkg: "verif/harness/c06",
+		Runs: []RunDef{
+			{Fn: "H_alias", Tier: "quick", Reach: []string{"end"}},
+			{Fn: "H_reference", Tier: "quick", Reach: []string{"end"}},
+		},
+		Rule:        rule + "; (shape: list / string-keyed / nested) x (7 aliasing routes) x (10 mutations) x (2 directions) enumerated by solver-driven case split, element values and the written value are symbolic 64-bit ints; oracle = before/after snapshot of the other name inside the same run",
+		Assumptions: []string{"sort() cells use a concrete element pool (elements are compared through their string form)"},
+		Outside:     []string{"depth-3 shapes, mixed shapes", "std/php/array builtins (only the data methods)", "closure capture (excluded by the property)"},
+	})
+
 	c17 := func(fn string, p map[string]int) RunDef {
 		return RunDef{Fn: fn, Params: p, Tier: "quick", Reach: []string{"end"}}
 	}
